@@ -30,6 +30,7 @@ func runC06(r *Report, p *Program) {
 	c06R3(h)
 	c06R4(h)
 	c06R5(h)
+	c06R6(h)
 }
 
 func c06R1(h H) {
@@ -192,7 +193,7 @@ func c06R1(h H) {
 
 func c06R2(h H) {
 	r := h.r
-	r.Rule("R2", "defaults as a decision table (E10): SetDefaultTLSParams, evaluated for every combination of site-set/unset minimum version, maximum version and cipher list, keeps a set minimum and otherwise installs a constant not lower than TLS 1.2, and puts TLS_FALLBACK_SCSV in front of the cipher list; buildStandardTLSConfig copies ProtocolMinVersion→MinVersion, ProtocolMaxVersion→MaxVersion, ClientAuth→ClientAuth, ALPN→NextProtos and appends \"acme-tls/1\" to ALPN", 5)
+	r.Rule("R2", "defaults as a decision table (E10): SetDefaultTLSParams, evaluated for every combination of site-set/unset minimum version, maximum version and cipher list, keeps a set minimum and otherwise installs a constant not lower than TLS 1.2, and puts TLS_FALLBACK_SCSV in front of the cipher list; buildStandardTLSConfig copies ProtocolMinVersion→MinVersion, ProtocolMaxVersion→MaxVersion, ClientAuth→ClientAuth, ALPN→NextProtos, appends \"acme-tls/1\" to ALPN, and disables session tickets on every path on which the site has a client certificate policy", 6)
 	if sd := h.fn("R2", tlsPkg, "SetDefaultTLSParams"); sd != nil {
 		cfgT := sd.Params[0].Type().(*types.Pointer).Elem()
 		bad, nrun := "", 0
@@ -323,6 +324,64 @@ func c06R2(h H) {
 			}
 		})
 		r.Check(acme, "R2", "caskettls.(*Config).buildStandardTLSConfig/acme-alpn", bs.Pos(), "acme-tls/1 is offered so TLS-ALPN challenges can be solved")
+		// A resumed session is not verified against ClientCAs again, and the sites of a listener share its ticket keys:
+		// a ticket from a site with another client CA would be honoured.  A site that asks for client certificates
+		// issues and accepts no tickets: on every path from the "client certificates wanted" edge to a successful
+		// return, true is stored into the built tls.Config's SessionTicketsDisabled.
+		storesNoTickets := func(in ssa.Instruction) bool {
+			st, ok := in.(*ssa.Store)
+			if !ok {
+				return false
+			}
+			fa, ok := st.Addr.(*ssa.FieldAddr)
+			if !ok || !strings.HasSuffix(strings.TrimPrefix(fa.X.Type().String(), "*"), "crypto/tls.Config") || fieldName(fa.X.Type(), fa.Field) != "SessionTicketsDisabled" {
+				return false
+			}
+			k, ok := st.Val.(*ssa.Const)
+			return ok && k.Value != nil && k.Value.String() == "true"
+		}
+		var wanted []ssa.Instruction // first instructions of the edges on which a client certificate policy is set
+		for _, b := range bs.Blocks {
+			if len(b.Instrs) == 0 {
+				continue
+			}
+			iff, ok := b.Instrs[len(b.Instrs)-1].(*ssa.If)
+			if !ok {
+				continue
+			}
+			c, neg := stripNot(iff.Cond)
+			bo, ok := c.(*ssa.BinOp)
+			if !ok || (bo.Op != token.NEQ && bo.Op != token.EQL) {
+				continue
+			}
+			x, y := bo.X, bo.Y
+			if _, isC := x.(*ssa.Const); isC {
+				x, y = y, x
+			}
+			k, isC := y.(*ssa.Const)
+			if p, _ := fieldPath(x); !isC || !strings.HasSuffix(p, "ClientAuth") || k.Value == nil || k.Value.String() != "0" {
+				continue
+			}
+			idx := 0 // the edge on which ClientAuth != NoClientCert
+			if (bo.Op == token.EQL) != neg {
+				idx = 1
+			}
+			if f := firstInstr(b.Succs[idx]); f != nil {
+				wanted = append(wanted, f)
+			}
+		}
+		okTickets := len(wanted) > 0
+		for _, w := range wanted {
+			for _, rt := range realReturns(bs) {
+				if k, isC := rt.Results[len(rt.Results)-1].(*ssa.Const); !isC || !k.IsNil() {
+					continue // an error return: no config is built
+				}
+				if !storesNoTickets(w) && canReach(bs, w, rt, cut{instr: storesNoTickets}) {
+					okTickets = false
+				}
+			}
+		}
+		r.Check(okTickets, "R2", "caskettls.(*Config).buildStandardTLSConfig/client-auth-no-session-tickets", bs.Pos(), "a site with a client certificate policy resumes no sessions by ticket (a resumed session is not checked against this site's client CAs, and the ticket keys are the listener's)", sprintf("%d client-certificate edge(s)", len(wanted)))
 	}
 }
 
